@@ -154,11 +154,16 @@ RECIPES = {
     "tz_idx_london": dict(n=36, offsets=[0, 20], v=1, page=64, stats="auto", an=None, tz=("tl", "tu"), index="tl"),
     "tz_idx_utc_hive": dict(n=36, offsets=[0, 18], v=2, page=None, stats=True, an=None, tz=("tu", "tk"), index="tu",
                             scheme="hive", parts=["pi"]),
+    # column chunks of SEVERAL data pages (30 rows per row group, MAX_PAGE_SIZE=64: 5 pages for the 8-byte columns,
+    # other page boundaries for text / bool / categorical), v1 and v2
+    "pages_v1":   dict(n=60, offsets=[0, 30], v=1, page=64, stats=True, an=("Int64", (30, 45))),
+    "pages_v2":   dict(n=60, offsets=[0, 30], v=2, page=64, stats=True, an=None, with_n=False),
 }
 
 QUICK = ["flat1", "flat3", "flat4v2", "flat2v2", "hive0", "hive_pi", "hive_ps_pb", "hive_pt", "drill_pi_ps",
          "idx_range", "idx_dt", "idx_int", "empty0", "one_row"]
 TZ = ["tz_data", "tz_idx_london", "tz_idx_utc_hive"]        # not part of QUICK: used by the modules that ask for them
+PAGES = ["pages_v1", "pages_v2"]                           # not part of QUICK either (c13 asks for them)
 
 FOREIGN = ["nation.plain.parquet", "nation.dict.parquet", "nation.impala.parquet", "snappy-nation.impala.parquet",
            "gzip-nation.impala.parquet", "datapage_v2.snappy.parquet", "decimals.parquet", "empty.parquet",
